@@ -368,7 +368,7 @@ func cmdClaim(args []string) int {
 				}
 				continue
 			}
-			if o.Res.Ms > 4000 {
+			if o.Res.Ms > 8000 {
 				slow++
 				fmt.Printf("  not claimed (slow %dms): %s\n", o.Res.Ms, o.Name)
 				continue
